@@ -86,6 +86,8 @@ func config(name string) pmc.Cfg {
 		c.C, c.Silent = kit.WeightedCommittee(7, 1, 1, 1), []int{1, 2, 3}
 	case "K10x": // weights 7,1,1,1, a light member Byzantine, and every commit callback FAILS: the heavy member decides alone but stays in its height
 		c.C, c.Byz, c.CommitFails = kit.WeightedCommittee(7, 1, 1, 1), []int{1}, true
+	case "K10y": // weights 7,1,1,1, nobody Byzantine, the HEAVY member's commit callback fails (it decides alone, stays in the height and takes part in the view changes that follow; the light members' commits are observed)
+		c.C, c.CommitFailsAt = kit.WeightedCommittee(7, 1, 1, 1), []int{0}
 	case "K1x": // 4 equal, Byzantine leader of view 1, every commit callback fails
 		c.C, c.Byz, c.CommitFails = kit.EqualCommittee(4), []int{1}, true
 	case "K0": // 4 equal, every member correct (one more correct member than a quorum: a member can be shown a COMMIT quorum before the proposal)
@@ -278,6 +280,7 @@ func plan(prop, tier string) []run {
 		}
 		add("K0~r@v1", "M0", 0, mul*40*time.Second)   // four correct members, one view change, reverse flush order (COMMITs before PREPAREs before the proposal): exhaustive
 		add("K1~r", "M1", 0, mul*25*time.Second)      // the first configuration of this list under the reverse flush order
+		add("K10y@v2", "M0", 0, mul*10*time.Second)   // nobody Byzantine, only the heavy member's commit callback fails: light members that act on its first COMMIT are observed against the later views
 		add("K10x@v2", "M1", 0, mul*15*time.Second)   // the same committee with commit callbacks that fail: the heavy member is prepared by its proposal alone, stays in the height and takes part in view changes
 		add("K1@v0a", "MCS", 0, mul*10*time.Second)  // Byzantine COMMITs that carry a correct member's random-seed share: exhaustive
 		add("K1@v1a", "MNC", 0, mul*10*time.Second) // the adversary's own messages signed over non-canonical header encodings: exhaustive
